@@ -44,6 +44,9 @@ const R_ALL: &[(&str, Fm)] = &[
     ("bar^", Fm::Std),
     ("*/foo/*", Fm::Std),
     ("/fo+\\/bar/", Fm::Std),
+    // a second full-regex rule with the same options: the two are fused by the optimiser (a fused
+    // rule of full regexes is a shape of its own in the format)
+    ("/ad[sx]\\/fo+/", Fm::Std),
     ("/Fo+\\/bar/$match-case", Fm::Std),
     ("http", Fm::Std),
     ("https://www.", Fm::Std),
